@@ -175,6 +175,11 @@ func genValue(rng *rand.Rand, t reflect.Type, depth int) (v reflect.Value, ok bo
 	case reflect.Bool:
 		return reflect.ValueOf(rng.IntN(2) == 0).Convert(t), true
 	case reflect.Int, reflect.Int8, reflect.Int16, reflect.Int32, reflect.Int64:
+		if t.Kind() == reflect.Int64 && strings.HasSuffix(t.PkgPath(), "timeutil") {
+			// timeutil.Duration receivers and arguments: every magnitude, both signs, the extremes
+			return reflect.ValueOf(pick(rng, int64(0), 1, -1, 999, 1e6, 1e9, 59e9, 60e9, 61e9, 3600e9, 3660e9, 3661e9, -60e9, -3600e9, 86400e9,
+				-9223372036854775808, 9223372036854775807, rng.Int64(), -rng.Int64(), rng.Int64N(1e13))).Convert(t), true
+		}
 		return reflect.ValueOf(int64(pick(rng, 0, 1, -1, 2, 7, 64, 1<<20))).Convert(t), true
 	case reflect.Uint, reflect.Uint8, reflect.Uint16, reflect.Uint32, reflect.Uint64:
 		return reflect.ValueOf(uint64(pick(rng, 0, 1, 2, 53, 255, 65535))).Convert(t), true
